@@ -95,8 +95,6 @@ def ref_step(st, op, extra):
             _add_edge(st, list(op[1]), op[2], op[3], warns)
         elif name == "add_edges_from":
             fmt, items, kw = op[1], op[2], op[3]
-            if fmt == 1 and items and len(items[0]) == 0:
-                raise Rejected(("IndexError",))
             for it in items:
                 if fmt == 1:
                     ms, idx, ea = it, None, {}
